@@ -57,7 +57,7 @@ def cases(tier, seed):
         base += designs.seq_cases(widths=(1, 4, 8))
     for i, c in enumerate(base):
         for merge in (True, False):
-            out.append(dict(c, K=K, merge=merge, uwb=bool((i + merge) % 2)))
+            out.append(dict(c, K=K, merge=merge, uwb=bool((i + merge) % 2), wb=('same', 'foreign', 'implicit')[(i // 2 + merge) % 3]))
     return out
 
 
@@ -69,6 +69,17 @@ def site_of(case):
 
 def transform(case):
     A = designs.build(case)
+    if case.get('wb') == 'foreign':
+        # the design is passed as block= while an unrelated block is the working block
+        from . import c11
+        decoy = c11.decoy_block()
+        pyrtl.set_working_block(decoy, no_sanity_check=True)
+        case['_decoy'] = (decoy, c11.fingerprint(decoy))
+    elif case.get('wb') == 'implicit':
+        # the design is the working block and no block argument is given
+        wb_before = pyrtl.working_block()
+        B = pyrtl.synthesize(update_working_block=case['uwb'], merge_io_vectors=case['merge'])
+        return A, B, wb_before
     wb_before = pyrtl.working_block()
     B = pyrtl.synthesize(update_working_block=case['uwb'], merge_io_vectors=case['merge'], block=A)
     return A, B, wb_before
@@ -150,6 +161,10 @@ def run_case(case, ob, tier):
         return
     ob.fact('working-block-updated-as-requested',
             (pyrtl.working_block() is B) if case['uwb'] else (pyrtl.working_block() is wb_before), site + ':working_block')
+    if case.get('_decoy'):
+        from . import c11
+        decoy, fpd = case.pop('_decoy')
+        ob.fact('unrelated-working-block-untouched', c11.fingerprint(decoy) == fpd, site + ':foreign-working-block')
     try:
         B.sanity_check()
         ob.fact('result-well-formed', True)
@@ -188,6 +203,10 @@ def replay(cex):
         ob = Obligations(PROP, case, 1000)
         ob.fact('working-block-updated-as-requested',
                 (pyrtl.working_block() is B) if case['uwb'] else (pyrtl.working_block() is wb_before), 'wb')
+        if case.get('_decoy'):
+            from . import c11
+            decoy, fpd = case.pop('_decoy')
+            ob.fact('unrelated-working-block-untouched', c11.fingerprint(decoy) == fpd, 'decoy')
         try:
             B.sanity_check()
         except Exception as e:
